@@ -172,8 +172,16 @@ func (f *DB) Reload(path string, validationKey []byte, reloadTimeout time.Durati
 	var destroyNewDbi bool
 	var err error
 
+	// The reload goroutine keeps calling into f.dbi, possibly long after this call
+	// has timed out: hold a reference so that a later Destroy cannot close the
+	// backend under it.
+	f.l.Lock()
+	f.refCount++
+	f.l.Unlock()
+
 	// reload goroutine
 	go func() {
+		defer f.releaseRef()
 		var localDBI DBI
 		localDBI, err = f.dbi.Reload(path)
 		m.Lock()
@@ -234,6 +242,18 @@ func (f *DB) Reload(path string, validationKey []byte, reloadTimeout time.Durati
 	}
 
 	return f, nil
+}
+
+// releaseRef drops a reference taken on the DB; like Reader.Close, the last
+// reference of a destroyed DB closes the backend.
+func (f *DB) releaseRef() {
+	f.l.Lock()
+	defer f.l.Unlock()
+	f.refCount--
+	if f.destroyable && f.refCount == 0 {
+		glog.Infof("refcount == 0 && destroyable: Closing DB")
+		f.dbi.Close()
+	}
 }
 
 // validateDbKeyOrDestroy validates DB with the validationKey, and destroys the
